@@ -388,7 +388,7 @@ def run_shard(job: dict[str, Any]) -> dict[str, Any]:
                 )
 
         # client probe read-back -------------------------------------------------
-        if job.get("probe", True):
+        if job.get("probe", True) and row.get("_probe", True):
             from vgi_rpc.http import http_capabilities
             from vgi_rpc.http._testing import make_sync_client
 
@@ -450,7 +450,7 @@ def main(tier: str, seed: int) -> int:
         if not chk.extra["pairwise_complete"]:
             chk.inconclusive_because("pairwise array does not cover all pairs")
         names = list(FACTORS)
-        for _ in range(160):
+        for _ in range(420):
             rows.append({n: rng.choice(FACTORS[n]) for n in names})
         chk.exhaustive["pairwise_of_factor_values"] = True
         chk.exhaustive["full_product"] = False
@@ -465,7 +465,8 @@ def main(tier: str, seed: int) -> int:
         rows = []
         for n, base in enumerate(product_rows(cfg_factors)):
             for k in range(2):
-                rows.append({**base, **envs[(2 * n + k) % len(envs)]})
+                # the client probe does not depend on the probing environment: once per configuration
+                rows.append({**base, **envs[(2 * n + k) % len(envs)], "_probe": k == 0})
         rng.shuffle(rows)
         chk.exhaustive["full_product_of_quantified_settings"] = True
         chk.exhaustive["environment_factors(auth,prefix,404page,cors)_per_configuration"] = False
